@@ -157,6 +157,11 @@ pub struct RunCfg {
     pub seed: u64,
     /// keep the full event list (otherwise only hashes and counters)
     pub keep_events: bool,
+    /// worker threads of the simulated multi-thread runtime (0 and 1: one). Task 0 (`block_on`)
+    /// always runs on the main thread; every poll of another task runs on a worker drawn from
+    /// a PRNG stream of its own. Thread identity is visible to the code only through
+    /// `WorkerLocal` (the harness maps `thread_local!` of the code under test onto it).
+    pub workers: usize,
 }
 
 impl Default for RunCfg {
@@ -170,6 +175,7 @@ impl Default for RunCfg {
             short_write_permille: 0,
             seed: 0,
             keep_events: false,
+            workers: 1,
         }
     }
 }
@@ -225,6 +231,9 @@ struct World {
     cfg: RunCfg,
     rng_yield: Rng,
     rng_io: Rng,
+    rng_worker: Rng,
+    /// the simulated OS thread the current poll runs on (0 = main thread, 1.. = workers)
+    thread: u16,
     tick: u64,
     current: u16,
     tasks: Vec<TaskSlot>,
@@ -946,6 +955,136 @@ pub mod time {
 // Panic capture and the process-exit payload
 // ---------------------------------------------------------------------------------------------
 
+// ---------------------------------------------------------------------------------------------
+// Thread identity: per-(simulated-)thread storage
+// ---------------------------------------------------------------------------------------------
+
+/// The simulated OS thread the code is running on right now: 0 is the main thread (`block_on`
+/// and everything outside a poll), 1.. are the runtime's workers.
+pub fn current_thread() -> u16 {
+    if IN_SIM.with(|c| c.get()) {
+        WORLD
+            .with(|w| w.try_borrow().ok().and_then(|w| w.as_ref().map(|w| w.thread)))
+            .unwrap_or(0)
+    } else {
+        0
+    }
+}
+
+pub mod worker_local {
+    //! What `thread_local!` means under the simulator: one value per *simulated* thread. A task
+    //! of a multi-thread runtime may be polled on a different worker every time, so state kept
+    //! in a thread-local does not follow the task - exactly as on the real runtime.
+    use std::any::Any;
+    use std::cell::{Cell, RefCell};
+    use std::collections::HashMap;
+    use std::marker::PhantomData;
+    use std::rc::Rc;
+
+    thread_local! {
+        static STORE: RefCell<HashMap<(u16, usize), Rc<dyn Any>>> = RefCell::new(HashMap::new());
+    }
+
+    /// Forget every value (a new simulated process starts).
+    pub fn reset() {
+        let old = STORE.with(|s| std::mem::take(&mut *s.borrow_mut()));
+        drop(old);
+    }
+
+    /// Number of distinct (thread, key) slots in use - a reach measure.
+    pub fn slots() -> usize {
+        STORE.with(|s| s.borrow().len())
+    }
+
+    pub struct WorkerLocal<T: 'static> {
+        init: fn() -> T,
+        _p: PhantomData<fn() -> T>,
+    }
+
+    #[derive(Debug)]
+    pub struct AccessError;
+
+    impl<T: 'static> WorkerLocal<T> {
+        pub const fn new(init: fn() -> T) -> Self {
+            Self { init, _p: PhantomData }
+        }
+
+        fn slot(&'static self) -> Rc<dyn Any> {
+            let key = (super::current_thread(), self as *const Self as usize);
+            if let Some(v) = STORE.with(|s| s.borrow().get(&key).cloned()) {
+                return v;
+            }
+            // the initialiser may itself use other worker-locals: not under the borrow
+            let fresh: Rc<dyn Any> = Rc::new((self.init)());
+            STORE.with(|s| s.borrow_mut().entry(key).or_insert(fresh).clone())
+        }
+
+        pub fn with<F, R>(&'static self, f: F) -> R
+        where
+            F: FnOnce(&T) -> R,
+        {
+            let slot = self.slot();
+            f(slot.downcast_ref::<T>().expect("worker-local type"))
+        }
+
+        pub fn try_with<F, R>(&'static self, f: F) -> Result<R, AccessError>
+        where
+            F: FnOnce(&T) -> R,
+        {
+            Ok(self.with(f))
+        }
+    }
+
+    impl<T: 'static> WorkerLocal<Cell<T>> {
+        pub fn set(&'static self, value: T) {
+            self.with(|c| c.set(value))
+        }
+        pub fn get(&'static self) -> T
+        where
+            T: Copy,
+        {
+            self.with(|c| c.get())
+        }
+        pub fn take(&'static self) -> T
+        where
+            T: Default,
+        {
+            self.with(|c| c.take())
+        }
+        pub fn replace(&'static self, value: T) -> T {
+            self.with(|c| c.replace(value))
+        }
+    }
+
+    impl<T: 'static> WorkerLocal<RefCell<T>> {
+        pub fn with_borrow<F, R>(&'static self, f: F) -> R
+        where
+            F: FnOnce(&T) -> R,
+        {
+            self.with(|c| f(&c.borrow()))
+        }
+        pub fn with_borrow_mut<F, R>(&'static self, f: F) -> R
+        where
+            F: FnOnce(&mut T) -> R,
+        {
+            self.with(|c| f(&mut c.borrow_mut()))
+        }
+        pub fn set(&'static self, value: T) {
+            self.with(|c| *c.borrow_mut() = value)
+        }
+        pub fn take(&'static self) -> T
+        where
+            T: Default,
+        {
+            self.with(|c| c.take())
+        }
+        pub fn replace(&'static self, value: T) -> T {
+            self.with(|c| c.replace(value))
+        }
+    }
+}
+
+
 #[derive(Clone, Debug)]
 pub struct PanicReport {
     pub message: String,
@@ -1098,11 +1237,14 @@ impl Sim {
         F: Future<Output = bool> + 'static,
     {
         install_panic_hook();
+        worker_local::reset();
         let seed = cfg.seed;
         WORLD.with(|w| {
             *w.borrow_mut() = Some(World {
                 rng_yield: Rng::derive(seed, "yield"),
                 rng_io: Rng::derive(seed, "io"),
+                rng_worker: Rng::derive(seed, "worker"),
+                thread: 0,
                 cfg,
                 tick: 0,
                 current: 0,
@@ -1213,6 +1355,13 @@ impl Sim {
         let taken = with_world(|w| {
             w.tick += 1;
             w.current = id;
+            w.thread = if id == 0 {
+                0
+            } else if w.cfg.workers > 1 {
+                1 + w.rng_worker.below(w.cfg.workers) as u16
+            } else {
+                1
+            };
             w.fire_timers();
             w.log(Op::Poll, id as u32, 0);
             let t = &mut w.tasks[id as usize];
